@@ -40,7 +40,7 @@ class FakeSock:
         self.end = sc.get("end", "eof")
         self.closed = False
         self.shut = False
-        self.timeout = 7
+        self.timeout = 0 if sc.get("nonblocking") else 7
         self.req = bytearray()
         self.handshaking = bool(sc.get("via_connect"))
         self.sent = []
@@ -90,17 +90,23 @@ class FakeSock:
         p = self.pos
         if self.tmo.get(p, 0) > 0:
             self.tmo[p] -= 1
-            self.log({"ev": "ttimeout", "req": n})
+            if self.sc.get("nonblocking"):
+                self.log({"ev": "tagain", "req": n, "pos": self.pos})
+                self._raise(BlockingIOError(errno.EAGAIN, "Resource temporarily unavailable"))
+            self.log({"ev": "ttimeout", "req": n, "pos": self.pos})
             self._raise(_socket.timeout("timed out"))
         avail = len(self.stream) - p
         if avail == 0:
             if self.end == "eof":
-                self.log({"ev": "teof", "req": n})
+                self.log({"ev": "teof", "req": n, "pos": self.pos})
                 return b""
             if self.end == "reset":
-                self.log({"ev": "terr", "req": n})
+                self.log({"ev": "terr", "req": n, "pos": self.pos})
                 self._raise(ConnectionResetError(errno.ECONNRESET, "Connection reset by peer"))
-            self.log({"ev": "ttimeout", "req": n})
+            if self.sc.get("nonblocking"):
+                self.log({"ev": "tagain", "req": n, "pos": self.pos})
+                self._raise(BlockingIOError(errno.EAGAIN, "Resource temporarily unavailable"))
+            self.log({"ev": "ttimeout", "req": n, "pos": self.pos})
             self._raise(_socket.timeout("timed out"))
         k = min(n, avail)
         nxt = [c for c in self.cuts if c > p]
@@ -172,6 +178,7 @@ def run_scenario(sc):
     if sc.get("trace"):
         import logging
         nullh = logging.NullHandler()
+        lvl0 = logging.getLogger("websocket").level
         websocket.enableTrace(True, handler=nullh, level="DEBUG")
     if sc.get("via_connect"):
         ws.connect("ws://example.test/chat", socket=fake)
@@ -228,7 +235,7 @@ def run_scenario(sc):
                 elif e is fake.last_exc and fake.end == "reset" and fake.pos == len(fake.stream):
                     break
                 elif fake.end == "timeout" and fake.pos == len(fake.stream) and not any(fake.tmo.values()) \
-                        and type(e).__name__ == "WebSocketTimeoutException":
+                        and (type(e).__name__ == "WebSocketTimeoutException" or e is fake.last_exc):
                     break
     finally:
         signal.setitimer(signal.ITIMER_REAL, 0)
@@ -238,5 +245,6 @@ def run_scenario(sc):
             websocket.enableTrace(False, handler=nullh)
             lg = logging.getLogger("websocket")
             lg.handlers = [h for h in lg.handlers if h is not nullh]
+            lg.setLevel(lvl0)
     log({"ev": "end"})
     return ev
